@@ -52,6 +52,67 @@ def boundQ(v, lower):
     return int(math.ceil((v - 1e-7) * Q)) if lower else int(math.floor((v + 1e-7) * Q))
 
 
+def pair_stage(tier, exe, v, sd, d):
+    """Stage 1b: two requests to ONE converter over the same variable (GenBoundPairs.tla); when the second is
+    answered with the variable introduced for the first, Bounds!PairVerdict requires equal values on the box."""
+    g = tlc("GenBoundPairs", "GenBoundPairs.cfg", cwd=sd, workers=NPROC)
+    tlc_must_pass(g, "GenBoundPairs")
+    pairs = printed_json(g, "CASE")
+    if len(pairs) != 12096:
+        raise Broken("GenBoundPairs produced %d pairs" % len(pairs))
+    pairs.sort(key=lambda c: json.dumps(c, sort_keys=True))
+    if tier != "thorough":
+        rnd = random.Random(seed() + 11)
+        # every (type pair, coefficient pair, right-hand-side pair) once with a seeded domain
+        groups = {}
+        for pc in pairs:
+            groups.setdefault((pc["c1"]["type"], pc["c2"]["type"], pc["c1"]["lin"][0], pc["c2"]["lin"][0], pc["c1"]["c2"], pc["c2"]["c2"]), []).append(pc)
+        pairs = [rnd.choice(groups[k]) for k in sorted(groups)] + rnd.sample(pairs, 1500)
+    cf = os.path.join(d, "pairs-%s.txt" % tier)
+    with open(cf, "w") as f:
+        for i, pc in enumerate(pairs):
+            f.write(case_line(2 * i, pc["c1"]) + "\n")
+            f.write(case_line(2 * i + 1, pc["c2"]).replace(" " + pc["c2"]["type"] + " ", " +" + pc["c2"]["type"] + " ", 1) + "\n")
+    of = os.path.join(d, "pairs-%s.ndjson" % tier)
+    rc, so, se = run_harness(exe, [cf, of], timeout=900)
+    res = sanitize_trace(of, rc, se)
+    byid = {r["id"]: r for r in res if r.get("e") == "Res"}
+    for cr in [r for r in res if r.get("e") == "Crash"]:
+        v.violation("crash-pairs", "harness crashed in the pair stage: " + json.dumps(cr)[:500], cr)
+    recs, stats = [], {"pairs": len(pairs), "both_vars": 0, "same": 0, "narrowed": 0}
+    for i, pc in enumerate(pairs):
+        r1, r2 = byid.get(2 * i), byid.get(2 * i + 1)
+        if not r1 or not r2 or "rv" not in r1 or "rv" not in r2:
+            continue
+        stats["both_vars"] += 1
+        dom = pc["c1"]["doms"][0]
+        # the converter may narrow the argument's domain while answering: the box is the domain as generated,
+        # so such pairs are not judged
+        if any(str(r_[k_]) != fmtb(dom[b_]) for r_ in (r1, r2) for k_, b_ in (("a0lb", "lb"), ("a0ub", "ub"))):
+            stats["narrowed"] += 1
+            continue
+        same = r1["rv"] == r2["rv"]
+        stats["same"] += same
+        recs.append({"e": "Pair", "id": i, "c1": dict(pc["c1"], D=2), "c2": dict(pc["c2"], D=2), "same": same})
+    vres = validate_parallel("TraceBounds", "TraceBounds.cfg", recs, sd, "c06p")
+    verdicts = [x for r in vres for x in printed_json(r, "VERDICT")]
+    if len(verdicts) != len(recs):
+        raise Broken("pair stage: verdict count %d != %d" % (len(verdicts), len(recs)))
+    tally = {}
+    for vd in verdicts:
+        tally[vd["v"]] = tally.get(vd["v"], 0) + 1
+        if vd["v"] in ("ok", "distinct"):
+            continue
+        pc = pairs[vd["id"]]
+        c1, c2 = pc["c1"], pc["c2"]
+        desc = lambda c: "%s %s*x, rhs %s/2" % (c["type"], c["lin"][0], c["c2"])
+        v.violation("reused:%s:%s:%s:%s:%s:%s:%s" % (c1["type"], c1["lin"][0], c1["c2"], c2["type"], c2["lin"][0], c2["c2"], c1["names"][0]),
+                    "one converter, x in %s: asked for (%s) and then for (%s), it answered the second with the variable introduced for the first, but the two differ at (D=2-scaled) x in %s" %
+                    (c1["names"][0], desc(c1), desc(c2), json.dumps(vd["at"])[:120]), {"pair": pc, "at": vd["at"]})
+    stats["verdicts"] = tally
+    return stats, sum(r.distinct for r in vres) + g.distinct
+
+
 def run(tier):
     t0 = time.time()
     sd = os.path.join(SPECS, "flat")
@@ -119,6 +180,7 @@ def run(tier):
                     {"case": c, "answer": r, "at": vd["at"]})
     for cr in crashed:
         v.violation("crash", "harness crashed: " + json.dumps(cr)[:500], cr)
+    pstats, pstates = pair_stage(tier, exe, v, sd, d)
     # stage 2: the bounds auxiliary variables finally have in the DELIVERED model (after propagation down from
     # root constraints) still contain the expression's value at every feasible point (TraceBoundsDelivered.tla)
     import cvtcases, drv
@@ -166,14 +228,16 @@ def run(tier):
     rcode, nnew = v.finish()
     if rcode == 0 and dtally.get("ok", 0) < len(din) // 3:
         raise Broken("stage 2 vacuous: %s" % dtally)
+    if rcode == 0 and (pstats["same"] < 20 or pstats["verdicts"].get("distinct", 0) < 100):
+        raise Broken("pair stage vacuous: %s" % pstats)
     write_evidence(PID, tier, {
-        "states": g.distinct + sum(r.distinct for r in vres), "transitions": g.generated + sum(r.generated for r in vres),
+        "states": g.distinct + sum(r.distinct for r in vres) + pstates, "transitions": g.generated + sum(r.generated for r in vres),
         "traces_validated_against_impl": len(recs),
         "samples": [recs[0], recs[len(recs) // 2], recs[-1]],
-        "evaluations": len(recs) + len(din), "verdicts": tally, "delivered_models": len(din), "delivered_verdicts": dtally, "generated_cases_total": len(printed_json(g, "CASE")),
+        "evaluations": len(recs) + len(din), "verdicts": tally, "delivered_models": len(din), "delivered_verdicts": dtally, "reuse_pairs": pstats, "generated_cases_total": len(printed_json(g, "CASE")),
         "answers_by_kind": {k: sum(1 for r in byid.values() if r["kind"] == k) for k in ("var", "const", "alias", "throw")},
         "exhaustive": tier == "thorough",
-        "explanation": "TLC generates (functional type x argument-domain patterns incl. half-infinite/infinite/fixed/negative/zero-crossing/int-cont mixes x parameters); the real converter's AssignResult2Args answers are validated by TLC: every value of the function on the argument grid (half-integers for continuous arguments) lies within the assigned bounds, integrality only if integer-valued, constants/aliases only if equal; stage 2: for generated models converted natively through the real driver, the canonical value of every auxiliary variable at every feasible grid point lies within the bounds / type the variable has in the delivered model (propagation from root constraints may only remove values no feasible point attains)",
+        "explanation": "TLC generates (functional type x argument-domain patterns incl. half-infinite/infinite/fixed/negative/zero-crossing/int-cont mixes x parameters); the real converter's AssignResult2Args answers are validated by TLC: every value of the function on the argument grid (half-integers for continuous arguments) lies within the assigned bounds, integrality only if integer-valued, constants/aliases only if equal; pairs of comparisons of one variable (GenBoundPairs.tla: equal after normalisation, equal on integers only, close but different) asked of one converter one after the other: the second is answered with the first's variable only if the two agree on the whole domain; stage 2: for generated models converted natively through the real driver, the canonical value of every auxiliary variable at every feasible grid point lies within the bounds / type the variable has in the delivered model (propagation from root constraints may only remove values no feasible point attains)",
         "violations_new": nnew,
     }, time.time() - t0, violations=nnew,
         assumptions=["exp/log/trig/fractional powers: decided on margins measured with libm at sample points of the argument domain (ends, eighths, a fixed menu incl. multiples of pi/2), unit 1e-6 * max(1,|f|); a sampled observation, not a proof over the reals",
